@@ -229,6 +229,28 @@ pub fn urgency(cfg: Config, snap: Option<(i64, u64)>) -> UrgSet {
 }
 
 impl Model {
+    /// Take back the version `add_version` just accepted for `c` (E-SIZE: the implementation
+    /// refused it).
+    pub fn undo_last_version(&mut self, c: Cid, existed: bool) {
+        if let Some(cl) = self.clients.get_mut(&c) {
+            cl.chain.pop();
+            if let Some(s) = cl.snapshot.as_mut() {
+                s.since = s.since.saturating_sub(1);
+            }
+            self.next_sid -= 1;
+        }
+        if !existed {
+            self.clients.remove(&c);
+        }
+    }
+
+    /// some stored payload is of the limit-sized class
+    pub fn holds_huge(&self) -> bool {
+        self.clients.values().any(|c| {
+            c.chain.iter().any(|v| v.data.len() >= 1 << 24) || c.snapshot.as_ref().map(|s| s.data.len() >= 1 << 24).unwrap_or(false)
+        })
+    }
+
     pub fn new(cfg: Config) -> Self {
         Model {
             clients: BTreeMap::new(),
